@@ -129,12 +129,19 @@ func runC17(c *Ctx) {
 			continue
 		}
 		seen[name] = true
-		for bi, bound := range []vrt.Budget{{F: f}, {F: 1, P: p, Total: p + 1}, {F: f}} {
+		for bi, bound := range []vrt.Budget{{F: f}, {F: 1, P: p, Total: p + 1}, {F: f}, {F: f}} {
 			reqs, bound := reqs, bound
-			manual := bi == 2 // third pass: an application-owned redial loop around a bare RetryClient
+			manual := bi == 2  // third pass: an application-owned redial loop around a bare RetryClient
+			inState := bi == 3 // fourth pass: the handler is additionally (re-)registered from inside the ConnState callback on every StateActive
 			mode := ""
 			if manual {
 				mode = "manual/"
+			}
+			if inState {
+				if !strings.HasPrefix(name, "handle(h1)@B") {
+					continue
+				}
+				mode = "handle-in-connstate/"
 			}
 			var r *rcRun
 			sc := &vrt.Scenario{
@@ -142,7 +149,7 @@ func runC17(c *Ctx) {
 				Bound: bound,
 				Cfg:   vrt.Config{Horizon: int64(600 * time.Second)},
 				Body: func() {
-					rcExecuteInto(&rcCfg{Reqs: reqs, Faults: faults, KeepSession: true, PushAfterAck: push, Manual: manual}, &r)
+					rcExecuteInto(&rcCfg{Reqs: reqs, Faults: faults, KeepSession: true, PushAfterAck: push, Manual: manual, HandleInState: inState}, &r)
 					c17Oracle(r)
 				},
 				Observe: func() uint64 {
